@@ -33,6 +33,10 @@ ASSUMPTIONS = [
     "remove_ornaments=True over the matched notes with a score duration), s->p(u)=m and p->s(m)=u, and both maps are "
     "linear between neighbouring knots (mid-points), within 1e-5 relative; extrapolation is not compared; onsets "
     "where remove_ornaments leaves no note must not disturb the other knots",
+    "known deviation (proposed known finding): a matched grace note is decoded with duration exactly 0.0 instead of its "
+    "performed duration; it is reported (once per case) in the sub-spaces performances and alignments-two-changes; in the "
+    "other sub-spaces a decoded grace duration of exactly 0.0 is accepted besides the performed duration, any other "
+    "value is a violation everywhere",
     "two notes with the same score onset and pitch (unison in two voices) are generated only in the sub-space unison; "
     "the order of their two rows is free, but each note must still come back with its own performed duration",
     "beat positions of the reference: (division - pickup) * beats per division; one time signature and one divisions "
@@ -191,7 +195,8 @@ def eval_case(case):
                 if not abs(du - p["dur"]) <= TOL_DUR_ABS + TOL_DUR_REL * p["dur"]:
                     if du == 0.0:
                         # the designed behaviour (articulation ratio of grace notes fixed at 1): reported once per
-                        # case, after everything else, so that it cannot crowd out other violations
+                        # case, after everything else, and only in the sub-spaces that set "kf", so that the known
+                        # finding cannot crowd out other violations (the runner keeps at most 20000)
                         grace_zero.setdefault(sid, (p["dur"], cctx))
                     else:
                         res.fail("decoded-duration-grace", expected=p["dur"], observed=du, where="decode_performance",
@@ -226,7 +231,7 @@ def eval_case(case):
         res.traces += 1
         _check_time_maps(res, pc, tm_perf, tm_score, align, ro, sref, pref, matches, ctx)
 
-    for sid in sorted(grace_zero)[:1]:
+    for sid in sorted(grace_zero)[:1] if case.get("kf") else []:
         res.fail("decoded-duration-grace", expected=grace_zero[sid][0], observed=0.0, where="decode_performance",
                  detail="%s note=%s (grace note)" % (grace_zero[sid][1], sid))
 
@@ -234,8 +239,8 @@ def eval_case(case):
     ng = sum(1 for s, _ in matches if sref[s]["grace"])
     chords = len(matches) - len(uo)
     res.nontrivial = len(matches) >= 2 and len(uo) >= 2
-    res.outcome = "matched=%d onsets=%d grace=%d unmatched-score=%d extra-perf=%d viol=%s" % (
-        len(matches), len(uo), ng, len(sref) - len(matches), len(pref) - len(matches),
+    res.outcome = "matched=%d onsets=%d grace=%d%s unmatched-score=%d extra-perf=%d viol=%s" % (
+        len(matches), len(uo), ng, "(dur0)" if grace_zero else "", len(sref) - len(matches), len(pref) - len(matches),
         ",".join(sorted({v["clause"] for v in res.violations})))
     res.extra = {"configurations": len(configs)}
     res.payload = (worst_on, worst_du)
@@ -407,7 +412,8 @@ def gen_performances(scores, spreads=(0, 20000), styles=("n", "s", "o")):
                         perf = M.make_perf(sc, bps, sp, st, 1 + (j * 7) % 127, start_us=(0, 250000)[j % 2],
                                            order=PORDERS[j % 3])
                         yield dict(tag="perf s%d bps=%s spread=%d style=%s" % (si, "/".join(str(b // 1000) for b in bps), sp, st),
-                                   score=sc, perf=perf, align=M.reorder(M.all_match(sc, perf), ORDERS[(j // 3) % 3]), form="part")
+                                   score=sc, perf=perf, align=M.reorder(M.all_match(sc, perf), ORDERS[(j // 3) % 3]), form="part",
+                                   kf=1)
     return gen
 
 
@@ -458,11 +464,11 @@ def gen_two_changes(scores):
                 perf = [r for r in perf0 if r[0] != "p_" + a]
                 al = rest + [dict(label="deletion", score_id=a), dict(label="deletion", score_id=b),
                              dict(label="insertion", performance_id="p_" + b)]
-                yield dict(tag="align2 s%d del:%s del+ins:%s" % (si, a, b), score=sc, perf=perf, align=al, form="part")
+                yield dict(tag="align2 s%d del:%s del+ins:%s" % (si, a, b), score=sc, perf=perf, align=al, form="part", kf=1)
                 ex = ["x_orn", 86, 100000, 90000, 77]
                 al2 = [dict(label="ornament", score_id=b, performance_id="x_orn")] + rest + [
                     dict(label="deletion", score_id=a), dict(label="match", score_id=b, performance_id="p_" + b)]
-                yield dict(tag="align2 s%d del:%s orn:%s" % (si, a, b), score=sc, perf=[ex] + perf, align=al2, form="part")
+                yield dict(tag="align2 s%d del:%s orn:%s" % (si, a, b), score=sc, perf=[ex] + perf, align=al2, form="part", kf=1)
     return gen
 
 
